@@ -26,9 +26,11 @@
 (***************************************************************************)
 EXTENDS Ribbon, TraceLib, Tables
 
-VARIABLES l, dead, lastK, bq, ecq, den, snap
+VARIABLES l, dead, lastK, bq, ecq, den, snap,
+          pend    \* <<presses, releases>> not yet reported by an edge getter (a getter may report them one
+                  \* by one, or all at once like the self-clearing flags of the code as built)
 
-tvars == <<rVars, l, dead, lastK, bq, ecq, den, snap>>
+tvars == <<rVars, l, dead, lastK, bq, ecq, den, snap, pend>>
 
 e == Rec[l]
 
@@ -58,7 +60,7 @@ PollTags ==
           ~Near(MulQ(e.q, bq), CorrQ(MeanQ(val'[1], val'[2])), val'[2] + 16)
           THEN {<<"C16", "value">>} ELSE {})
 
-TMeta == e.op = "meta" /\ UNCHANGED <<rVars, dead, lastK, bq, ecq, den, snap>> /\ l' = l + 1
+TMeta == e.op = "meta" /\ UNCHANGED <<rVars, dead, lastK, bq, ecq, den, snap, pend>> /\ l' = l + 1
 
 TNew ==
   /\ e.op = "new"
@@ -68,38 +70,49 @@ TNew ==
      IN /\ cfg' = c /\ run' = 0 /\ win' = <<>> /\ sum' = 0
         /\ pressing' = FALSE /\ jp' = FALSE /\ jr' = FALSE /\ val' = <<0, 1>>
         /\ Flag(l, IF e.cap # want THEN {<<"C15", "capacity">>} ELSE {})
-  /\ lastK' = 0 /\ bq' = e.bq /\ ecq' = e.ecq /\ snap' = <<>>
+  /\ lastK' = 0 /\ bq' = e.bq /\ ecq' = e.ecq /\ snap' = <<>> /\ pend' = <<0, 0>>
   /\ den' = IF Has(e, "den") THEN e.den ELSE 4096
   /\ l' = l + 1 /\ dead' = {}
 
 TPoll ==
   /\ e.op = "p"
   /\ Poll(e.x)
+  /\ pend' = <<Min2(pend[1] + (IF pressing' /\ ~pressing THEN 1 ELSE 0), 1000000),
+               Min2(pend[2] + (IF ~pressing' /\ pressing THEN 1 ELSE 0), 1000000)>>
   /\ lastK' = e.k /\ UNCHANGED <<bq, ecq, den, snap>>
   /\ Advance(PollTags)
 
+\* "true exactly once per change": a true needs an unreported change, a false is wrong while the latch of
+\* the specification still holds one (several unreported changes of the same direction may be reported by
+\* one true, as built, or one by one)
 TJP == /\ e.op = "jp" /\ PollJP /\ UNCHANGED <<lastK, bq, ecq, den, snap>>
-       /\ Advance(IF e.r # jp THEN {<<"C15", "just-pressed">>} ELSE {})
+       /\ pend' = <<IF e.r /\ pend[1] > 0 THEN pend[1] - 1 ELSE pend[1], pend[2]>>
+       /\ Advance(IF (e.r /\ pend[1] = 0) \/ (~e.r /\ jp) THEN {<<"C15", "just-pressed">>} ELSE {})
 TJR == /\ e.op = "jr" /\ PollJR /\ UNCHANGED <<lastK, bq, ecq, den, snap>>
-       /\ Advance(IF e.r # jr THEN {<<"C15", "just-released">>} ELSE {})
+       /\ pend' = <<pend[1], IF e.r /\ pend[2] > 0 THEN pend[2] - 1 ELSE pend[2]>>
+       /\ Advance(IF (e.r /\ pend[2] = 0) \/ (~e.r /\ jr) THEN {<<"C15", "just-released">>} ELSE {})
 
 TPair ==
   /\ e.op = "pair"
-  /\ UNCHANGED <<rVars, lastK, bq, ecq, den, snap>>
+  /\ UNCHANGED <<rVars, lastK, bq, ecq, den, snap, pend>>
   /\ l' = l + 1 /\ dead' = dead
   /\ Flag(l, (IF ~e.pa \/ ~e.pb THEN {<<"C15", "press-state">>} ELSE {})
         \cup (IF e.kind = "same" /\ e.ka # e.kb THEN {<<"C16", "depends-on-excluded-sample">>} ELSE {})
         \cup (IF e.kind = "raise" /\ e.kb < e.ka THEN {<<"C16", "not-monotone">>} ELSE {}))
 
-TPanic == /\ e.op = "panic" /\ UNCHANGED <<rVars, lastK, bq, ecq, den, snap>> /\ Advance({<<"C17", "panic">>, <<"C15", "panic">>, <<"C16", "panic">>})
+TPanic == /\ e.op = "panic" /\ UNCHANGED <<rVars, lastK, bq, ecq, den, snap, pend>> /\ Advance({<<"C17", "panic">>, <<"C15", "panic">>, <<"C16", "panic">>})
 
-TMark == e.op = "mark" /\ snap' = <<rVars, lastK>> /\ UNCHANGED <<rVars, dead, lastK, bq, ecq, den>> /\ l' = l + 1
+TMark == e.op = "mark" /\ snap' = <<rVars, lastK, pend>> /\ UNCHANGED <<rVars, dead, lastK, bq, ecq, den, pend>> /\ l' = l + 1
+\* k further identical repetitions: each leaves as many unreported edges behind as the marked one did
 TRep  == /\ e.op = "rep" /\ UNCHANGED <<rVars, lastK, bq, ecq, den, snap>>
-         /\ Advance(IF snap = <<rVars, lastK>> THEN {}
+         /\ pend' = IF snap = <<>> THEN pend
+                    ELSE <<Min2(pend[1] + Min2(e.n, 1000000) * Min2(pend[1] - snap[3][1], 1000), 1000000),
+                           Min2(pend[2] + Min2(e.n, 1000000) * Min2(pend[2] - snap[3][2], 1000), 1000000)>>
+         /\ Advance(IF snap # <<>> /\ <<snap[1], snap[2]>> = <<rVars, lastK>> THEN {}
                     ELSE {<<"C15", "repetition-not-a-cycle">>, <<"C16", "repetition-not-a-cycle">>})
 
 TNext == l <= NRec /\ (TMark \/ TRep \/ TMeta \/ TNew \/ TPoll \/ TJP \/ TJR \/ TPair \/ TPanic)
 TInit == /\ RInit([ig |-> 0, dc |-> 0, cap |-> 2, thr |-> 4096]) /\ l = 1 /\ dead = {} /\ lastK = 0
-         /\ bq = 16777216 /\ ecq = 0 /\ den = 4096 /\ snap = <<>> /\ FlagInit
+         /\ bq = 16777216 /\ ecq = 0 /\ den = 4096 /\ snap = <<>> /\ pend = <<0, 0>> /\ FlagInit
 TSpec == TInit /\ [][TNext]_tvars
 =============================================================================
